@@ -255,6 +255,8 @@ def kani_playback_print(h):
     except subprocess.TimeoutExpired:
         return '[driver] playback generation timed out', []
     tests = re.findall(r'```\n(.*?)```', out, re.S)
+    # drop the doc-comment preamble (a multi-line cover condition is not a valid comment)
+    tests = [t[t.index('#[test]'):] for t in tests if '#[test]' in t and 'Check for `cover`' not in t]
     tail = out[out.find('Checking harness'):] if 'Checking harness' in out else out[-4000:]
     return tail, tests
 
